@@ -1341,7 +1341,7 @@ MODE_TABLE_FUNCS = [
 ]
 
 
-@rule('C02.modes', floor=7)
+@rule('C02.modes', floor=5)
 def modes(repo, out):
     """x/b vector selection and transposition flags are exact swaps between fwd and rev."""
     for rel, qn in MODE_TABLE_FUNCS:
@@ -1392,6 +1392,30 @@ def modes(repo, out):
                         bad = True
             if not bad:
                 out.ok(fn, st, f'swap table over {vec_names + [k for k in common if k.startswith("trans")]}')
+    # helpers that hand out the (solution, rhs) vectors by mode: `if fwd: return A, B` / `return B, A`
+    for rel in sorted({r for r, _ in MODE_TABLE_FUNCS}):
+        for f in repo.module(rel).funcs.values():
+            if len(list(astx.walk_stmts(f.node.body))) > 12 or \
+                    not any(isinstance(x, ast.Return) and isinstance(x.value, ast.Tuple)
+                            for x in astx.walk_stmts(f.node.body)):
+                continue
+            try:
+                pf = pathx.mode_paths(f, is_mode_fwd, True, subst=False)
+                pr = pathx.mode_paths(f, is_mode_fwd, False, subst=False)
+            except AnalysisError:
+                continue
+            if len(pf) != 1 or len(pr) != 1 or not isinstance(pf[0].ret, ast.Tuple) or \
+                    not isinstance(pr[0].ret, ast.Tuple) or len(pf[0].ret.elts) != len(pr[0].ret.elts):
+                continue
+            kf = [_vkind(e) for e in pf[0].ret.elts]
+            kr = [_vkind(e) for e in pr[0].ret.elts]
+            if not any(kf) and not any(kr):
+                continue
+            if None in kf or None in kr or any(a == b for a, b in zip(kf, kr)) or len(set(kf)) != len(kf):
+                out.bad(f, f.node, f'returns vector kinds {kf} in fwd and {kr} in rev: every slot must swap between '
+                        'd_outputs and d_residuals', key='modes-helper-swap')
+            else:
+                out.ok(f, f.node, f'mode-selected vector tuple {kf} / {kr}')
     # Problem.compute_jacvec_product
     fn = repo.func('openmdao/core/problem.py', 'Problem.compute_jacvec_product')
     done = False
@@ -1519,6 +1543,10 @@ selftest(
     Mutant('explicit-solve-role-variables-same', 'openmdao/core/explicitcomponent.py',
            "        if mode == 'fwd':\n            if self._has_resid_scaling or self._has_output_scaling:\n                with self._unscaled_context(outputs=[d_outputs], residuals=[d_residuals]):\n                    d_outputs.set_vec(d_residuals)\n            else:\n                d_outputs.set_vec(d_residuals)\n\n            # ExplicitComponent jacobian defined with -1 on diagonal.\n            d_outputs *= -1.0\n\n        else:  # rev\n            if self._has_resid_scaling or self._has_output_scaling:\n                with self._unscaled_context(outputs=[d_outputs], residuals=[d_residuals]):\n                    d_residuals.set_vec(d_outputs)\n            else:\n                d_residuals.set_vec(d_outputs)\n\n            # ExplicitComponent jacobian defined with -1 on diagonal.\n            d_residuals *= -1.0\n",
            "        if mode == 'fwd':\n            solution, rhs = d_outputs, d_residuals\n        else:\n            solution, rhs = d_outputs, d_residuals\n\n        if self._has_resid_scaling or self._has_output_scaling:\n            with self._unscaled_context(outputs=[d_outputs], residuals=[d_residuals]):\n                solution.set_vec(rhs)\n        else:\n            solution.set_vec(rhs)\n\n        solution *= -1.0\n", 'C02.explicit_solve'),
+    Twin('twin-modes-vector-pair-helper', 'openmdao/solvers/linear/linear_block_gs.py', "            if self._mode == 'fwd':\n                self._delta_d_n_1 = self._system()._doutputs.asarray(copy=True)\n            else:\n                self._delta_d_n_1 = self._system()._dresiduals.asarray(copy=True)\n            self._theta_n_1 = 1.0\n\n        return super()._iter_initialize()\n",
+         "            self._delta_d_n_1 = self._sol_rhs(self._system())[0].asarray(copy=True)\n            self._theta_n_1 = 1.0\n\n        return super()._iter_initialize()\n\n    def _sol_rhs(self, system):\n        if self._mode == 'fwd':\n            return system._doutputs, system._dresiduals\n        return system._dresiduals, system._doutputs\n"),
+    Mutant('modes-vector-pair-helper-not-swapped', 'openmdao/solvers/linear/linear_block_gs.py', "            if self._mode == 'fwd':\n                self._delta_d_n_1 = self._system()._doutputs.asarray(copy=True)\n            else:\n                self._delta_d_n_1 = self._system()._dresiduals.asarray(copy=True)\n            self._theta_n_1 = 1.0\n\n        return super()._iter_initialize()\n",
+           "            self._delta_d_n_1 = self._sol_rhs(self._system())[0].asarray(copy=True)\n            self._theta_n_1 = 1.0\n\n        return super()._iter_initialize()\n\n    def _sol_rhs(self, system):\n        if self._mode == 'fwd':\n            return system._doutputs, system._dresiduals\n        return system._doutputs, system._dresiduals\n", 'C02.modes'),
     Twin('twin-transfer-early-return', _DT,
          "        if mode == 'fwd':\n            # this works whether the vecs have multi columns or not due to broadcasting\n            in_vec.set_val(out_vec.asarray()[self._out_inds.flat], self._in_inds)\n\n        else:  # rev\n            out_vec.iadd(np.bincount(self._out_inds, in_vec._get_data()[self._in_inds],\n                                     minlength=out_vec._data.size))",
          "        if mode != 'fwd':\n            w = in_vec._get_data()[self._in_inds]\n            g = np.bincount(self._out_inds, weights=w, minlength=out_vec._data.size)\n            out_vec.iadd(g)\n            return\n        vals = out_vec.asarray()[self._out_inds.flat]\n        in_vec.set_val(vals, self._in_inds)"),
